@@ -32,14 +32,23 @@ def gen_case(rng):
             ops.append(['mark', rng.choice([round(rng.uniform(1, 300), 2), rng.uniform(1, 300)]), t])
             continue
         r = rng.random()
-        if net != 0 and r < 0.3:
+        if abs(net) >= 10 ** 5 and r < 0.5:
+            q = -net + rng.choice([1, 2, 3, -1, -2])          # a large holding cut to a residual of a few shares
+        elif net != 0 and r < 0.3:
             q = -net                                          # to exactly flat
         elif net != 0 and r < 0.45:
             q = -net - (1 if net > 0 else -1) * rng.choice([1, 5, 40])      # flip through zero
         else:
             q = hv(rng, rng.choice([1, -1]) * rng.choice([1, 2, 10, 50, 100, 1000]), 'int', 0.2)
+            if rng.random() < 0.06:
+                q = rng.choice([1, -1]) * rng.choice([10 ** 5, 250000, 10 ** 6, 10 ** 7])
         t += rng.choice([0, 0, 1, 60, 3600, 86400])
         price = hv(rng, rng.choice([round(rng.uniform(1, 300), 2), rng.uniform(1, 300), float(rng.randint(1, 200))]), 'pos')
+        if i > 0 and rng.random() < 0.15:
+            # a price a hair away from (or exactly at) the previous fill's price
+            last = [o for o in ops if o[0] == 'fill']
+            if last:
+                price = last[-1][3] * (1.0 + rng.choice([0.0, 1e-6, -1e-6, 5e-6, -5e-6, 2e-5, -9e-6]))
         comm = hv(rng, rng.choice([0.0, 1.0, rng.uniform(0, 20)]), 'pos')
         if i > 0 and rng.random() < 0.04:
             price = rng.choice([0.0, -2.0])                   # refused
